@@ -61,6 +61,12 @@ BODY_SHAPES: dict[str, tuple[bytes, str | None]] = {
     "problem_str": (b'"bad things"', "application/problem+json"),
     "problem_arr": (b'["e1", "e2"]', "application/problem+json; charset=utf-8"),
 }
+# 3xx answers that carry a Location header whose target the fake server DOES serve (200 / 204 / 404): a transport that
+# follows redirects would return the target's answer although the server answered 3xx
+LOCATION_SHAPES: dict[str, str] = {
+    "loc_rel_200": "/__t200", "loc_abs_200": "http://srv.test/__t200", "loc_rel_204": "/__t204", "loc_rel_404": "/__t404",
+}
+REDIRECT_STATUSES = [301, 302, 303, 307, 308]
 SHAPE_STATUSES = [100, 302, 404, 422, 500, 503]   # statuses that are crossed with every body shape
 
 
@@ -179,13 +185,20 @@ def main(arg):
         except BaseException as e:
             out[pkg] = {"import_error": type(e).__name__ + ": " + str(e)[:300]}
             continue
-        out[pkg] = {"rows": asyncio.run(run_client(cm, cfgm, exc, job, arg["shapes"]))}
+        out[pkg] = {"rows": asyncio.run(run_client(cm, cfgm, exc, job, arg["shapes"], arg["locations"]))}
     return out
 
-async def run_client(cm, cfgm, exc, job, shapes):
+async def run_client(cm, cfgm, exc, job, shapes, locations):
     import traceback
     cur = {}
     def handler(req):
+        if req.url.path.startswith("/__t"):     # a redirect target (only reached by a client that follows redirects)
+            code = int(req.url.path[4:])
+            return httpx.Response(code, json={"x": 1}) if code != 204 else httpx.Response(204)
+        if cur["shape"] in locations:
+            r = httpx.Response(cur["st"], json={"x": 1}, headers={"location": locations[cur["shape"]]})
+            cur["sent"] = r
+            return r
         if cur["sse"] and cur["shape"] == "obj":
             r = httpx.Response(cur["st"], content=b'data: {"x": 1}\n\n', headers={"content-type": "text/event-stream"})
         else:
@@ -262,7 +275,7 @@ def run_jobs(jobs: list[dict]) -> list[dict]:
         batches = [jobs[i:i + 8] for i in range(0, len(jobs), 8)]
 
         def one(batch: list[dict]) -> dict:
-            arg = {"shapes": {k: [b.hex(), ct] for k, (b, ct) in BODY_SHAPES.items()},
+            arg = {"shapes": {k: [b.hex(), ct] for k, (b, ct) in BODY_SHAPES.items()}, "locations": LOCATION_SHAPES,
                    "jobs": [{"pkg": j["pkg"], "calls": j["calls"],
                              "sse": [any(c == "sse" for _, c in op) for op in j["spec"]]}
                             for j in batch if j["gen_error"] is None]}
@@ -426,6 +439,9 @@ def main(chk: Check, replay: dict | None = None) -> int:
                 sorted(set(range(100, 600, 20)) | set(SHAPE_STATUSES) | set(declared_statuses(spec)))
             calls += [(o, k, st, sh) for o in range(len(spec)) for k in ("bundled", "custom") for st in ssts
                       for sh in BODY_SHAPES if sh != "obj"]
+        # 3xx with a Location header pointing at a path the server serves
+        calls += [(o, k, st, sh) for o in range(len(spec)) for k in ("bundled", "custom")
+                  for st in (REDIRECT_STATUSES if chk.thorough else [301, 302, 307]) for sh in LOCATION_SHAPES]
         jobs.append({"spec": spec, "calls": calls})
     cases = run_jobs(jobs)
     chk.cov["evaluations"] = len(cases)
@@ -441,7 +457,7 @@ def main(chk: Check, replay: dict | None = None) -> int:
         "statuses_per_op": "every 100..599" if chk.thorough else f"{len(QUICK_STATUSES)} representative + declared",
         "by_kind": {k: sum(1 for c in cases if c["input"]["kind"] == k) for k in ("bundled", "custom")},
         "by_status_class": {f"{d}xx": sum(1 for c in cases if c["input"]["st"] // 100 == d) for d in range(1, 6)},
-        "by_body_shape": {sh: sum(1 for c in cases if c["input"].get("body") == sh) for sh in BODY_SHAPES},
+        "by_body_shape": {sh: sum(1 for c in cases if c["input"].get("body") == sh) for sh in list(BODY_SHAPES) + list(LOCATION_SHAPES)},
         "observations": dist, "oracle_failures": sum(1 for c in cases if c["oracle_fail"])}
     for c in cases[:2] + cases[-2:]:
         chk.sample({"input": c["input"], "obs": c["obs"]})
